@@ -10,6 +10,7 @@ import ast
 import builtins
 import dataclasses
 import importlib
+import re
 import time
 
 import z3
@@ -2369,6 +2370,47 @@ class Engine(object):
 
         return T().visit(fnode)
 
+    def check_attachment(self, contract, fnode):
+        """
+        A contract talks about the function's parameters and locals BY NAME.  If the code no longer has a name the
+        contract mentions (a local was renamed, a parameter dropped), the contract does not attach: that is `undecided`
+        (OutOfSubset), never a refutation.
+        """
+        import builtins
+
+        a = fnode.args
+        bound = {x.arg for x in a.posonlyargs + a.args + a.kwonlyargs} | ({a.vararg.arg} if a.vararg else set()) | ({a.kwarg.arg} if a.kwarg else set())
+        for n in ast.walk(fnode):
+            if isinstance(n, ast.Name) and isinstance(n.ctx, (ast.Store, ast.Del)):
+                bound.add(n.id)
+            elif isinstance(n, (ast.FunctionDef, ast.AsyncFunctionDef, ast.ClassDef)) and n is not fnode:
+                bound.add(n.name)
+            elif isinstance(n, ast.arg):
+                bound.add(n.arg)
+            elif isinstance(n, ast.ExceptHandler) and n.name:
+                bound.add(n.name)
+        ghosts = {"result", "done", "k", "v0", "True", "False", "None"} | set(SPEC_FUNCS) | set(contract.closure) | set(contract.bind)
+        is_block = getattr(contract, "block", None) is not None
+        if is_block:
+            ghosts |= set(contract.params)  # block contracts declare their state (incl. ghost variables) themselves
+        texts = list(contract.requires) + list(contract.ensures)
+        for spec in (contract.loops or {}).values():
+            if isinstance(spec, dict):
+                texts += list(spec.get("invariant", [])) + ([spec["variant"]] if spec.get("variant") else [])
+                ghosts |= set(spec.get("vars", {}))
+        used = set()
+        for t in texts:
+            try:
+                used |= {n.id for n in ast.walk(ast.parse(t, mode="eval")) if isinstance(n, ast.Name)}
+            except SyntaxError:
+                continue
+        declared = set() if is_block else set(contract.params)
+        # local_kinds are hints ("if this local exists it has that kind"); only names the specification text USES must exist
+        declared |= set()
+        missing = sorted(x for x in (used | declared) if x not in bound and x not in ghosts and not hasattr(self.module, x) and not hasattr(builtins, x))
+        if missing:
+            raise OutOfSubset("the contract of %s mentions %s, which the current source no longer binds (renamed?): the contract does not attach" % (contract.qual, missing))
+
     def verify(self, contract):
         """Verify one function against its contract; fills self.obligations"""
         import copy
@@ -2383,6 +2425,7 @@ class Engine(object):
             got = [ast.unparse(d) for d in fnode.decorator_list]
             if got != list(contract.decorators):
                 raise OutOfSubset("decorator list of %s is %r, contract expects %r" % (contract.qual, got, contract.decorators))
+        self.check_attachment(contract, fnode)
         fnode = self.rewrite_idioms(copy.deepcopy(fnode))
         self.contract_fnode = fnode
         self.number_loops(fnode)
@@ -2469,6 +2512,7 @@ def _engine_verify_loop(self, contract, k):
     fnode = contract.fnode()
     if fnode is None:
         raise OutOfSubset("function %s not found in current source" % contract.qual)
+    self.check_attachment(contract, fnode)
     fnode = self.rewrite_idioms(copy.deepcopy(fnode))
     self.contract_fnode = fnode
     self.number_loops(fnode)
@@ -2532,6 +2576,7 @@ def _engine_verify_block(self, contract):
     fnode = contract.fnode()
     if fnode is None:
         raise OutOfSubset("function %s not found in current source" % contract.src)
+    self.check_attachment(contract, fnode)
     fnode = self.rewrite_idioms(copy.deepcopy(fnode))
     self.contract_fnode = fnode
     self.number_loops(fnode)
@@ -2584,6 +2629,23 @@ def _engine_verify_block(self, contract):
                         raise OutOfSubset("block of %s uses %s other than as %s[%s] (line %d)" % (contract.qual, base_, base_, idx_, n.lineno))
                 if isinstance(n, ast.Name) and n.id == idx_ and isinstance(n.ctx, ast.Store):
                     raise OutOfSubset("block of %s re-binds the slot index %s (line %d)" % (contract.qual, idx_, n.lineno))
+    # attachment: every variable the block READS from outside must be declared by the contract (a renamed local would
+    # otherwise leave the declared one untouched and the claims about it trivially refutable)
+    import builtins as _bi
+
+    stored_, loaded_ = set(), []
+    for stmt_ in chosen:
+        for n in ast.walk(stmt_):
+            if isinstance(n, ast.Name):
+                (stored_.add(n.id) if isinstance(n.ctx, (ast.Store, ast.Del)) else loaded_.append(n))
+            elif isinstance(n, (ast.FunctionDef, ast.ClassDef)):
+                stored_.add(n.name)
+            elif isinstance(n, ast.arg):
+                stored_.add(n.arg)
+    declared_ = set(contract.params) | {re.split(r"[.\[]", p_)[0] for p_ in contract.paths}
+    undeclared = sorted({n.id for n in loaded_ if n.id not in declared_ and n.id not in stored_ and not hasattr(self.module, n.id) and not hasattr(_bi, n.id)})
+    if undeclared:
+        raise OutOfSubset("block of %s reads %s, which the contract does not declare (renamed local?): the contract does not attach" % (contract.qual, undeclared))
     st = State()
     for n_, kind in contract.params.items():
         v = self.fresh_value(kind, n_, st)
